@@ -190,7 +190,7 @@ def run(ctx):
     plans = [p for p in plans if p["entry"] in C02_ENTRIES]
     ctx.log("plans from TLC for C02 entries: %d" % len(plans))
     build.lib("asan"); build.lib("plain")
-    jobs = c01.build_jobs(ctx, plans, {"lz", "file"})
+    jobs = c01.build_jobs(ctx, plans, {"lz", "file"}, sweeps=False)
     for j in jobs:
         j["mode"] = "agg"
     order = sorted(range(len(jobs)), key=lambda k: -jobs[k]["inp"]["n"])
